@@ -327,6 +327,10 @@ REQUESTS = {
     'unserialisable-nested': ('eval', ('return [1, {"k": object()}]',), {}),
     'syntax-error-in-request': ('assist', ('def f(:\n', [1, 5], 'f.py'), {}),
     'str-of-the-exception-raises': ('eval', ('class E(Exception):\n    def __str__(self): raise RuntimeError("x")\nraise E()',), {}),
+    # text that is not ASCII: in the source, in a result, in the message of an exception (character counts differ from byte counts)
+    'lint-non-ascii': ('lint', ('import os\n\u043f\u0435\u0440\u0435\u043c = "\u00e9\u20ac" * 20\nprint(\u043f\u0435\u0440\u0435\u043c, \u043d\u0435\u0442)\n', 'f.py'), {}),
+    'eval-non-ascii': ('eval', ('return ["\u00e9" * 20, "\u20ac" * 40, {"\u00fc" * 33: "\U0001f600" * 9}]',), {}),
+    'raises-non-ascii': ('eval', ('raise ValueError("\u00fc" * 40)',), {}),
     # attributes of the server object that are no requests
     'attribute-run': ('run', (), {}),
     'attribute-process': ('process', ('eval', ('return 1',), {}), {}),
